@@ -18,6 +18,7 @@ from vsym.npproxy import NPProxy, rebind
 
 PID = "C07"
 KF_DEF = "C07-d2c-defective"
+KF_PS = "C07-getEPQ1-singular-large-step"
 
 META = dict(
     level="other",
@@ -196,6 +197,9 @@ def step_fn(name, h, order, bmode, half, which):
             eng.tag("near-triangular")
         Em, G0, G1, Gz = _ref_step(A, h, Bm)
         obls = []
+        # recorded finding: the Pade route called directly (getEPQ1 / getEPQ_pow) on a singular A far above
+        # the norm at which getEPQ itself would switch to the augmented-matrix route
+        known = [(KF_PS, True)] if (which in ("getEPQ1", "getEPQ_pow") and abs(np.linalg.det(A)) < 1e-12 and norm1 > 20) else []
         for i in range(n):
             got = z3.Sum([z3.RealVal(Fraction(float(Eo[i, j]))) * y0[j] for j in range(n)] + [z3.RealVal(Fraction(float(Po[i, j]))) * u0[j] for j in range(m)]
                          + ([z3.RealVal(Fraction(float(Qo[i, j]))) * u1[j] for j in range(m)] if order == 1 else []))
@@ -206,7 +210,7 @@ def step_fn(name, h, order, bmode, half, which):
             scale = sum(abs(Fraction(x)) for x in Em[i]) + sum(abs(x) for x in (G0[i] + G1[i] if order == 1 else Gz[i])) + Fraction(1, 10 ** 6)
             tol = Fraction(1, 10 ** 9) * scale
             obls.append(E.Obl("%s on %s, h=%g, order %d: state %d after one step equals the exact hold solution" % (which, name, h, order, i),
-                              odekit.within(got, ref, tol), info=info))
+                              odekit.within(got, ref, tol), known=known, info=info))
         return obls
     return fn
 
@@ -426,6 +430,8 @@ def jobs(tier, seed):
                         if q and which != "getEPQ" and (k + seed) % 5:
                             continue
                         items.append((name, h, order, bmode, half, which))
+    forced = [("freefree", 30.0, 1, "none", False, "getEPQ1"), ("freefree", 30.0, 1, "none", False, "getEPQ"), ("freefree", 30.0, 0, "B", False, "getEPQ2")]
+    items += [f for f in forced if f not in items]
     for i in range(14):
         ch = items[i::14]
         if ch:
